@@ -22,6 +22,10 @@ func (tree *ParserT) parseBareword() []rune {
 	}
 
 endBareword:
+	if i > len(tree.expression) {
+		// called with charPos already at the end (`:` as the last character)
+		i = len(tree.expression)
+	}
 	value := tree.expression[tree.charPos:i]
 	tree.charPos = i
 	return value
